@@ -152,6 +152,13 @@ func genDumpCase(t *rapid.T, cfg gen.ProgCfg) dumpCase {
 		lay.Gaps[0] = "#" + strings.Repeat("p", c.Pad) + "\n" + lay.Gaps[0]
 		c.Classes = append(c.Classes, fmt.Sprintf("pad:%d", c.Pad))
 	}
+	if gen.Chance(t, 5, "manylines") {
+		// hundreds or thousands of lines: the line table gets as many entries
+		n := gen.Pick(t, "nlines", []int{255, 256, 257, 1023, 1024, 1025, 1100, 2047, 2048, 2049, 4097})
+		unit := gen.Pick(t, "lineunit", []string{"\n", "\n", " \n", "#x\n"})
+		lay.Gaps[0] = strings.Repeat(unit, n) + lay.Gaps[0]
+		c.Classes = append(c.Classes, fmt.Sprintf("lines:%d", n))
+	}
 	src, _ := renderChecked(r.Toks, lay)
 	c.caseProg = caseProg{Prog: p, Layout: lay, Src: src, Feat: feat}
 	return c
